@@ -117,6 +117,9 @@ class Interp:
                 rb = self.hobj(b).meta.get("snapshot_of", b.ref)
                 return mkbool(ra == rb)
             return FALSE
+        from . import libmodels
+        if name in libmodels.SPEC_LIB:
+            return libmodels.SPEC_LIB[name](self, args, kwargs)
         if name == "final":
             fr = self.final_frames.get(args[0].c if len(args) > 1 else None) or self.final_frames.get(None)
             nm = args[-1].c
@@ -517,9 +520,12 @@ class Interp:
             for x in extra:
                 P.assume(x)
             raise
-        except PathEnd:
+        except PathEnd as e:
+            # the scope's assumption is inconsistent with the path: only this branch is infeasible
             P.solver.pop()
             del P.pc[saved:]
+            if str(e) in ("infeasible", "assume false", "empty union"):
+                raise _InfeasibleBranch()
             raise
         inner = P.pc[base:]
         P.solver.pop()
@@ -551,7 +557,13 @@ class Interp:
             for x in extra:
                 P.assume(x)
             raise
-        except (PathEnd, _InfeasibleBranch):
+        except PathEnd as e:
+            P.solver.pop()
+            del P.pc[saved:]
+            if str(e) in ("infeasible", "assume false", "empty union"):
+                raise _InfeasibleBranch()
+            raise
+        except _InfeasibleBranch:
             P.solver.pop()
             del P.pc[saved:]
             raise
